@@ -22,6 +22,8 @@ PROJS = {
     "cube": lambda p: (lambda e, n: (e * e * e / p[0], n)),
     "square": lambda p: (lambda e, n: (e * e, n * n)),
     "shear": lambda p: (lambda e, n: (e + p[0] * n, n - p[0] * e)),
+    # coupled and non-monotone: the first coordinate has its minimum strictly INSIDE a region that contains (a, b)
+    "radial": lambda p: (lambda e, n: ((e - p[0]) * (e - p[0]) + (n - p[1]) * (n - p[1]), n - p[1] * e)),
 }
 
 
@@ -41,8 +43,12 @@ def c_get_region(es, ns, shape, kind="get_region"):
     return _mk("get_region", [es, ns, shape], f"get_region {C.enc(es)} {C.enc(ns)}", kind)
 
 
+def _enc_nan(xs):
+    return "[ " + " ".join("nan" if x != x else C.enc(x) for x in xs) + " ]"
+
+
 def c_inside(reg, es, ns, shape, kind="inside"):
-    return _mk("inside", [list(reg), es, ns, shape], f"inside {C.enc(list(reg))} {C.enc(es)} {C.enc(ns)}", kind)
+    return _mk("inside", [list(reg), es, ns, shape], f"inside {C.enc(list(reg))} {_enc_nan(es)} {_enc_nan(ns)}", kind)
 
 
 def c_pad(reg, pad, kind="pad"):
@@ -75,11 +81,13 @@ def corpus():
           c_check((0, 1, 3, 2), "check-invalid"), c_check((0, 1, 0), "check-invalid"), c_check((0, 1, 0, 1, 5), "check-invalid"),
           c_inside((0, 2, 0, 2), [0.0, 2.0, 1.0, 2.0, -0.5, 2.5], [0.0, 2.0, 1.0, 0.0, 1.0, 1.0], [6], "inside-boundary"),
           c_inside((2, 0, 0, 2), [1.0], [1.0], [1], "inside-invalid-region"),
+          c_inside((0, 2, 0, 2), [1.0, float("nan"), 1.0, float("nan"), 3.0], [1.0, 1.0, float("nan"), float("nan"), float("nan")], [5], "inside-nan"),
           c_get_region([1.0, -3.0, 2.5], [7.0, 7.0, 7.0], [3]), c_pad((0, 1, 2, 3), 0.5), c_pad((0, 1, 2, 3), (0.25, -0.5)),
           c_scatter((0, 10, -5, 0), 7, 0, None), c_scatter((0, 10, -5, 0), 3, 1, [4.0, 5.0]),
           c_scatter((10, 0, -5, 0), 3, 1, None, "scatter-invalid"),
           c_maxabs([[1.0, -5.0, 2.0], [[3.0, 4.0], [0.0, -1.0]]]), c_maxabs([[-7.0]]),
-          c_project((0, 2, 0, 1), "shear", [0.5]), c_project((-2, 1, -1, 3), "square", [])]
+          c_project((0, 2, 0, 1), "shear", [0.5]), c_project((-2, 1, -1, 3), "square", []),
+          c_project((0, 4, 0, 2), "radial", [1.0, 0.5]), c_project((-3, 5, -2, 6), "radial", [1.0, 2.0])]
     return cs
 
 
@@ -97,6 +105,9 @@ def generate(rng, tier):
             npts = rng.randint(1, 24)
             es, ns = _arr(rng, reg, npts)
             r2 = reg if rng.random() < 0.9 else (reg[1] + 1, reg[0], reg[2], reg[3])
+            if rng.random() < 0.25:      # gappy positions: a NaN coordinate compares false with every bound, so the point is outside
+                for _ in range(rng.randint(1, 3)):
+                    (es if rng.random() < 0.5 else ns)[rng.randrange(npts)] = float("nan")
             cs.append(c_inside(r2, es, ns, _shape_for(rng, npts), "inside" if r2 is reg else "inside-invalid-region"))
         elif u < 0.55:
             pad = G.number(rng) if rng.random() < 0.5 else (G.number(rng), G.number(rng))
@@ -122,9 +133,11 @@ def generate(rng, tier):
             cs.append(c_maxabs(arrays))
         else:
             sr = G.small_region(rng) if rng.random() < 0.7 else (-3.0, 2.0, -1.5, 4.0)
-            pk = rng.choice(["affine", "cube", "square", "shear"])
+            pk = rng.choice(["affine", "cube", "square", "shear", "radial", "radial"])
+            k1, k2 = rng.randint(1, 7), rng.randint(1, 7)      # a node-aligned interior point of the 101 x 101 grid (k/8 of the way: not a node -> use /100)
             pp = {"affine": [rng.choice([-2.0, 0.5, 3.0]), G.dyadic(rng, 64), rng.choice([-1.0, 2.0, 0.25]), G.dyadic(rng, 64)],
-                  "cube": [rng.choice([1.0, 16.0, 1024.0])], "square": [], "shear": [rng.choice([0.5, -0.25, 2.0])]}[pk]
+                  "cube": [rng.choice([1.0, 16.0, 1024.0])], "square": [], "shear": [rng.choice([0.5, -0.25, 2.0])],
+                  "radial": [sr[0] + (sr[1] - sr[0]) * k1 / 8.0, sr[2] + (sr[3] - sr[2]) * k2 / 8.0]}[pk]
             cs.append(c_project(sr, pk, pp))
     return cs
 
